@@ -244,8 +244,32 @@ func (t *Tasks) UnmarshalYAML(node *yaml.Node) error {
 }
 
 func taskNameWithNamespace(taskName string, namespace string) string {
+	// A leading separator refers to a task in the root Taskfile. It is kept
+	// until every Taskfile has been merged (see resolveRootReferences), so
+	// that the reference survives any number of (flattened) includes.
 	if strings.HasPrefix(taskName, NamespaceSeparator) {
-		return strings.TrimPrefix(taskName, NamespaceSeparator)
+		return taskName
 	}
 	return fmt.Sprintf("%s%s%s", namespace, NamespaceSeparator, taskName)
+}
+
+// resolveRootReferences removes the leading separator from the names of the
+// tasks called by deps and cmds. It must only be called on the tasks of the
+// root Taskfile, once everything has been merged into it.
+func (tasks *Tasks) resolveRootReferences() {
+	for task := range tasks.Values(nil) {
+		if task == nil {
+			continue
+		}
+		for _, dep := range task.Deps {
+			if dep != nil {
+				dep.Task = strings.TrimPrefix(dep.Task, NamespaceSeparator)
+			}
+		}
+		for _, cmd := range task.Cmds {
+			if cmd != nil {
+				cmd.Task = strings.TrimPrefix(cmd.Task, NamespaceSeparator)
+			}
+		}
+	}
 }
